@@ -1,43 +1,88 @@
 #!/venv/bin/python
-"""seedcheck.py <seed dir> [PROP ...]: confirm a seeded defect in a scratch worktree and run the registered quick checks on it.
-Steps: (1) worktree at /repo HEAD, demo must exit 0; (2) apply patch.diff, demo must exit 1; (3) run ./vf check <PROP> for the
-property (PCDVERIF_REPO) and report detection; (4) reset the worktree. Never touches /repo's working tree."""
-import json, os, subprocess, sys, time
+"""seedcheck.py <seed dir> [PROP ...] [--wt DIR] [--tests] [--tier quick|thorough]
+Confirm a seeded defect in a scratch worktree and run the registered checks on it.
+Steps: (1) worktree at /repo HEAD, demo must exit 0; (2) apply patch.diff, demo must exit 1; (2b, --tests) the pinned suite is run in
+the patched worktree (extensions built out of tree, copied in) and compared with BASELINE.json's stable_pass; (3) ./vf check <PROP>
+(PCDVERIF_REPO=<worktree>) and report detection; (4) reset the worktree. Never touches /repo's working tree."""
+import json, os, shutil, subprocess, sys, time
 sys.path.insert(0, os.path.dirname(os.path.dirname(os.path.abspath(__file__))))
+args = sys.argv[1:]
 WT = '/var/tmp/pcd-seedwt'
-d = os.path.abspath(sys.argv[1])
+tier = 'quick'
+run_tests = False
+if '--wt' in args:
+    i = args.index('--wt'); WT = args[i + 1]; args = args[:i] + args[i + 2:]
+if '--tier' in args:
+    i = args.index('--tier'); tier = args[i + 1]; args = args[:i] + args[i + 2:]
+if '--tests' in args:
+    args.remove('--tests'); run_tests = True
+d = os.path.abspath(args[0])
 meta = json.load(open(os.path.join(d, 'meta.json')))
-props = sys.argv[2:] or [meta['property']]
+props = args[1:] or [meta['property']]
 head = subprocess.run(['git', '-C', '/repo', 'rev-parse', 'HEAD'], stdout=subprocess.PIPE).stdout.decode().strip()
 if not os.path.isdir(WT):
     subprocess.run(['git', '-C', '/repo', 'worktree', 'add', '--detach', '-f', WT, 'HEAD'], stdout=subprocess.DEVNULL, stderr=subprocess.DEVNULL)
 subprocess.run(['git', '-C', WT, 'checkout', '-q', '--detach', head]); subprocess.run(['git', '-C', WT, 'checkout', '-q', '--', '.'])
+subprocess.run(['git', '-C', WT, 'clean', '-fdxq'])
 os.environ['PCDVERIF_REPO'] = WT
 from pcdverif import build
 import importlib; importlib.reload(build)
+
+
 def demo():
     so = build.native('plain')
     ov = build.overlay(so, tag='seed-%d' % os.getpid())
     try:
         env = dict(os.environ, PYTHONPATH=ov)
-        p = subprocess.run(['/venv/bin/python', os.path.join(d, 'demo.py')], env=env, stdout=subprocess.PIPE, stderr=subprocess.STDOUT, timeout=600, cwd=d)
+        p = subprocess.run(['/venv/bin/python', os.path.join(d, 'demo.py')], env=env, stdout=subprocess.PIPE, stderr=subprocess.STDOUT, timeout=900, cwd=d)
         return p.returncode, p.stdout.decode(errors='replace')[-300:]
     finally:
-        import shutil; shutil.rmtree(ov, ignore_errors=True)
-res = {'head': head}
+        shutil.rmtree(ov, ignore_errors=True)
+
+
+def suite():
+    """Pinned suite in the patched worktree; returns (#baseline-stable tests, #of those passing now, missing list)."""
+    so = build.native('plain')
+    for root, dirs, names in os.walk(so):
+        for nm in names:
+            if nm.endswith('.so'):
+                rel = os.path.relpath(os.path.join(root, nm), so)
+                dst = os.path.join(WT, 'lib', rel)
+                os.makedirs(os.path.dirname(dst), exist_ok=True)
+                shutil.copy2(os.path.join(root, nm), dst)
+    import xml.etree.ElementTree as ET
+    b = json.load(open('/root/.vp/BASELINE.json'))
+    stable = set(b['stable_pass'])
+    out = os.path.join('/var/tmp', 'seedtests-%d.xml' % os.getpid())
+    env = dict(os.environ); env.pop('PCDVERIF_REPO', None); env['PYTHONPATH'] = os.path.join(WT, 'lib')
+    subprocess.run(['/venv/bin/python', '-m', 'pytest', '-q', '-p', 'no:cacheprovider', '--timeout=900', '--continue-on-collection-errors',
+                    '-n', '8', '--junitxml=' + out], cwd=WT, env=env, stdout=subprocess.DEVNULL, stderr=subprocess.DEVNULL)
+    passed = set()
+    for tc in ET.parse(out).getroot().iter('testcase'):
+        if not any(ch.tag in ('failure', 'error', 'skipped') for ch in tc):
+            passed.add('%s::%s' % (tc.get('classname'), tc.get('name')))
+    os.unlink(out)
+    missing = sorted(stable - passed)
+    return len(stable), len(stable & passed), missing[:20]
+
+
+res = {'head': head, 'tier': tier}
 rc0, out0 = demo(); res['demo_pristine_exit'] = rc0
 ap = subprocess.run(['git', '-C', WT, 'apply', os.path.join(d, 'patch.diff')], stderr=subprocess.PIPE)
 if ap.returncode:
     print('PATCH DOES NOT APPLY', ap.stderr.decode()[:300]); sys.exit(3)
-rc1, out1 = demo(); res['demo_patched_exit'] = rc1; res['demo_patched_output'] = out1.strip().splitlines()[-1:] 
+rc1, out1 = demo(); res['demo_patched_exit'] = rc1; res['demo_patched_output'] = out1.strip().splitlines()[-1:]
+if run_tests:
+    n, ok, missing = suite()
+    res['suite_on_patched_tree'] = {'baseline_stable': n, 'passing': ok, 'no_longer_passing': missing}
 det = {}
 for P in props:
     t0 = time.time()
     env = dict(os.environ, PCDVERIF_REPO=WT, PCDVERIF_NOEVIDENCE='1')
-    r = subprocess.run(['/verif/vf', 'check', P, '--tier', 'quick'], env=env, stdout=subprocess.PIPE, stderr=subprocess.STDOUT)
+    r = subprocess.run(['/verif/vf', 'check', P, '--tier', tier], env=env, stdout=subprocess.PIPE, stderr=subprocess.STDOUT)
     lines = [l for l in r.stdout.decode().splitlines() if 'violation in check' in l or 'HARNESS' in l]
     det[P] = {'exit': r.returncode, 'seconds': round(time.time() - t0, 1), 'first': [l[:260] for l in lines[:3]]}
 res['checks'] = det
-subprocess.run(['git', '-C', WT, 'checkout', '-q', '--', '.']); subprocess.run(['git', '-C', WT, 'clean', '-fdq'])
+subprocess.run(['git', '-C', WT, 'checkout', '-q', '--', '.']); subprocess.run(['git', '-C', WT, 'clean', '-fdxq'])
 print(json.dumps(res, indent=1))
 json.dump(res, open(os.path.join(d, 'confirmation.json'), 'w'), indent=1)
